@@ -275,6 +275,8 @@ def run(run, ix, tier):
                                          % norm(loop.test, 60), line=loop.lineno))
     run.stats['unbounded_loops'] = n_unbounded
     check_asymptotic_thresholds(run, ix)
+    check_divergence_exits(run, ix)
+    check_gamma3_reentry(run, ix)
     # ---- T-R5 / T-R6: iteration and precision caps --------------------------------
     run.rule('T-R5', floor=18, desc='loops that rely on a cap keep it inside the loop')
     run.rule('T-R6', floor=18, desc='the cap comparison is not made infeasible by a clamp')
@@ -417,6 +419,118 @@ def run(run, ix, tier):
 # argument; they terminate only if the argument is large enough FOR THAT PRECISION
 ASYMPTOTIC_SERIES = ('real_stirling_series', 'complex_stirling_series', 'ei_asymptotic', 'complex_ei_asymptotic')
 PRECISION_NAMES = ('prec', 'wp', 'prec2', 'workprec')
+
+
+# zero-exit loops of a divergent (asymptotic) series whose switch-over threshold was confirmed by hand to put
+# the smallest term below 2^-wp (so that the term does reach exactly 0 in fixed point)
+CONFIRMED_THRESHOLDS = {
+    ('mpmath/libmp/libhyper.py', 'ei_asymptotic'): 'callers require |x| > wp*ln2 + 10 (T-R8 ties that test to wp): min term e^-x < 2^-wp',
+    ('mpmath/libmp/libhyper.py', 'complex_ei_asymptotic'): 'same threshold on |z| (T-R8)',
+    ('mpmath/libmp/libhyper.py', 'mpf_ci_si'): 'asymptotic only if mag-1 > log2(wp), i.e. |x| > wp: min term ~ e^-x < 2^-wp',
+}
+
+
+def check_divergence_exits(run, ix):
+    """T-R9.  A fixed-point series loop that ends only when a term is exactly 0 (`while t:`) terminates if the
+    terms shrink to 0.  When the term update MULTIPLIES by the loop counter (polynomial degree > 0 in a variable
+    the loop increments) the series is divergent: its terms shrink only up to about counter ~ x and grow for ever
+    after.  Such a loop needs a divergence exit - a comparison of consecutive |terms| that leaves the loop - unless
+    its switch-over threshold is in the table of thresholds confirmed by hand.  (mpf_expint relied on a size
+    ESTIMATE that was off by up to n+m bits: expint(90, 221) never returned.)"""
+    from .c17 import _degree
+    run.rule('T-R9', floor=3, desc='divergent fixed-point series: divergence exit or confirmed threshold')
+    n = 0
+    for rel in ('mpmath/libmp/libhyper.py', 'mpmath/libmp/libelefun.py', 'mpmath/libmp/gammazeta.py'):
+        for f in ix.module(rel).funcs.values():
+            if not isinstance(f.node, ast.FunctionDef):
+                continue
+            for lp in _walk_own(f.node):
+                if not isinstance(lp, ast.While):
+                    continue
+                tnames = {x.id for x in ast.walk(lp.test) if isinstance(x, ast.Name)}
+                # `while 1: ... if not t: break` is a zero-exit loop as well
+                for g in ast.walk(lp):
+                    if isinstance(g, ast.If) and g.body and isinstance(g.body[-1], ast.Break):
+                        for u in ast.walk(g.test):
+                            if isinstance(u, ast.UnaryOp) and isinstance(u.op, ast.Not) and isinstance(u.operand, ast.Name):
+                                tnames.add(u.operand.id)
+                counters = {x.target.id for x in ast.walk(lp) if isinstance(x, ast.AugAssign) and
+                            isinstance(x.op, ast.Add) and isinstance(x.target, ast.Name) and
+                            isinstance(x.value, ast.Constant)}
+                growing = None
+                for x in ast.walk(lp):
+                    if isinstance(x, ast.Assign) and isinstance(x.targets[0], ast.Name):
+                        used = {y.id for y in ast.walk(x.value) if isinstance(y, ast.Name)}
+                        # a term: feeds itself (t = ... t ...) or a loop-condition variable
+                        # a term the loop's exit depends on, fed by itself or by such a term
+                        if x.targets[0].id not in tnames or not (used & tnames):
+                            continue
+                        for c in counters:
+                            d = _degree(x.value, c)
+                            if d is not None and d > 0 and c in used:
+                                growing = (x, c, d)
+                if growing is None:
+                    continue
+                n += 1
+                x, c, d = growing
+                key = (rel, f.qualname)
+                # divergence exit: an If in the loop comparing abs() of two term-like values, leaving the loop
+                exit_ok = False
+                term = x.targets[0].id
+                related = {term}
+                for y in ast.walk(lp):
+                    if isinstance(y, ast.Assign) and isinstance(y.targets[0], ast.Name):
+                        if isinstance(y.value, ast.Name) and y.value.id in related:
+                            related.add(y.targets[0].id)          # prev = term
+                        if y.targets[0].id == term and isinstance(y.value, ast.Name):
+                            related.add(y.value.id)                # term = u
+                for g in ast.walk(lp):
+                    if isinstance(g, ast.If) and g.body and isinstance(g.body[-1], (ast.Raise, ast.Break, ast.Return)):
+                        for cmp_ in ast.walk(g.test):
+                            if isinstance(cmp_, ast.Compare) and len(cmp_.ops) == 1 and \
+                                    isinstance(cmp_.ops[0], (ast.Gt, ast.GtE)):
+                                l = {u.id for u in ast.walk(cmp_.left) if isinstance(u, ast.Name)} - {'abs'}
+                                r = {u.id for u in ast.walk(cmp_.comparators[0]) if isinstance(u, ast.Name)} - {'abs'}
+                                if l and r and l <= related and r <= related and l != r:
+                                    exit_ok = True
+                if exit_ok:
+                    run.ok('T-R9', '%s: `%s` (degree %d in %s) has a divergence exit' % (f.qualname, norm(x, 50), d, c))
+                elif key in CONFIRMED_THRESHOLDS:
+                    run.ok('T-R9', '%s: threshold confirmed: %s' % (f.qualname, CONFIRMED_THRESHOLDS[key][:70]))
+                else:
+                    run.fail(Finding('T-R9', rel, f.qualname, norm(x),
+                                     'the loop ends only when this term is exactly 0, but the term is multiplied by the '
+                                     'growing counter %s (degree %d): past its smallest term the series grows for ever.  '
+                                     'There is no divergence exit and the switch-over threshold is not a confirmed one: '
+                                     'an argument just inside the threshold makes the loop run for ever' % (c, d),
+                                     line=x.lineno))
+    if n < 3:
+        raise AnalysisError('T-R9: only %d divergent fixed-point series loops found' % n)
+
+
+def check_gamma3_reentry(run, ix):
+    """T-R10.  gammainc(z, a, b) hands the case "both limits given" to _gamma3.  _gamma3 may call gammainc back only
+    in the one-limit forms (which dispatch to the upper / lower gamma functions): a call that again gives both
+    limits - even (z, 0, a) - is swapped by gammainc's own normalisation into a generalized gamma function whenever
+    a < 0 and comes straight back, 15 bits of precision higher each time, until RecursionError."""
+    rel = 'mpmath/functions/expintegrals.py'
+    f = ix.func(rel, '_gamma3')
+    run.rule('T-R10', floor=2, desc='_gamma3 re-enters gammainc only in one-limit forms')
+    n = 0
+    for c in _walk_own(f.node):
+        if isinstance(c, ast.Call) and norm(c.func) == 'ctx.gammainc':
+            n += 1
+            two = len(c.args) >= 3 or any(k.arg == 'b' for k in c.keywords)
+            if two:
+                run.fail(Finding('T-R10', rel, f.qualname, norm(c),
+                                 'the handler of the two-limit case calls gammainc with two limits again: for a '
+                                 'negative limit the normalisation in gammainc turns it back into this case and the '
+                                 'two functions call each other without end (RecursionError, not a documented exception)',
+                                 line=c.lineno))
+            else:
+                run.ok('T-R10', '_gamma3 -> %s (one limit)' % norm(c, 50))
+    if n < 2:
+        raise AnalysisError('_gamma3: calls of gammainc not found')
 
 
 def check_asymptotic_thresholds(run, ix):
